@@ -25,8 +25,8 @@ TRUSTED = [
 ASSUMPTIONS = ['all members of a group submit the same request sequence (C03 proves this for kfac itself)']
 PARTIAL = []
 
-DT = {0: torch.float32, 1: torch.float64, 2: torch.float16}
-ES = {0: 4, 1: 8, 2: 2}
+DT = {0: torch.float32, 1: torch.float64, 2: torch.float16, 3: torch.int64, 4: torch.int32}
+ES = {0: 4, 1: 8, 2: 2, 3: 8, 4: 4}
 
 
 def gen_case(rng, thorough):
@@ -59,7 +59,7 @@ def gen_case(rng, thorough):
             shape = (n, n)
         else:
             shape = rng.choice([(), (1,), (3,), (2, 2), (2, 3), (4, 1, 2), (0,), (0, 3), (17,), (6, 6), (64,)])
-        dt = rng.choice([0, 0, 0, 1, 2]) if rng.random() < 0.4 else 0
+        dt = rng.choice([0, 0, 0, 1, 2, 3, 4]) if rng.random() < 0.4 else 0       # (integer tensors too: counters, masks)
         ops.append(('rb', g, tid, shape, dt, sym, rng.random() < 0.6))
         tid += 1
     ops.append(('fl',))
@@ -154,14 +154,21 @@ def check_case(ctx, case, seed, lines, pend):
             else:
                 raw = bool(case.get('raw'))
                 tot = sum(payload(tid, r, shape, dt, sym, 1 if raw else len(g)).to(torch.float64) for r in g)
-                if raw and avg:
+                exp_dt = DT[dt]
+                if avg and dt in (3, 4):
+                    # the per-tensor all-reduce averages an integer tensor as (1/n) * t: a float tensor of the default dtype
+                    want = (1 / len(g)) * tot.to(DT[dt])
+                    exp_dt = want.dtype
+                elif raw and avg:
                     want = (1 / len(g)) * tot.to(DT[dt])    # TorchDistributedCommunicator.allreduce's own rounding
                 else:
                     want = (tot / len(g)) if avg else tot
-            if tuple(got.shape) != tuple(shape) or got.dtype != DT[dt]:
-                ctx.fail(f'tensor {tid}: shape/dtype {tuple(got.shape)}/{got.dtype} instead of {shape}/{DT[dt]}',
+            if len(g) == 1:
+                exp_dt = DT[dt]
+            if tuple(got.shape) != tuple(shape) or got.dtype != exp_dt:
+                ctx.fail(f'tensor {tid}: shape/dtype {tuple(got.shape)}/{got.dtype} instead of {shape}/{exp_dt}',
                          jcase, 'shape-dtype')
-            elif not torch.equal(got.to(torch.float64), want.to(DT[dt]).to(torch.float64)):
+            elif not torch.equal(got.to(torch.float64), want.to(exp_dt).to(torch.float64)):
                 ctx.fail(f'tensor {tid} on rank {rank}: value differs from the unbucketed allreduce over {g}',
                          jcase, 'value')
         # capacity clause, from the observed events only: whenever this rank issues the all-reduce of a bucket that holds
